@@ -136,11 +136,15 @@ def cases(draw, tier="quick"):
     damage = draw(st.lists(st.tuples(st.sampled_from(["trunc", "flip", "zero", "dup"]), st.floats(0, 1), st.integers(0, 255)), min_size=0, max_size=3))
     o = dict(comp=draw(st.sampled_from(["gzip", "zstd", "lz4"])), B=B, no_keep_time=False, no_xattr=False, no_skip=False, T=False, e=False,
              j=draw(st.sampled_from([None, 1, 2])), defaults={}, source_date_epoch=None)
+    # empty members (a compressed stream of zero bytes) at the start / exactly at tar record boundaries, where the reader has used up
+    # everything decoded so far and asks for a new header; and short counts on the reads of the compressed input
+    empties = draw(st.lists(st.floats(0, 1), min_size=0, max_size=draw(st.sampled_from([0, 0, 1, 2, 3]))))
+    short_reads = draw(st.sampled_from([0, 0, 0, 1, 2, 3]))
     s2t_codec = draw(st.sampled_from(CODECS))
     # sqfs2tar output padded (by one extra file) to land on / next to a multiple of the 256 KiB buffer of the compressing output stream
     s2t_pad = draw(st.sampled_from([None, None, None, None, 0, 0, 0, -512, 512, 131072]))
     return dict(archive=ar, codec=codec, level=level, splits=splits, trailing=trailing, chunk=chunk, damage=damage, opts=o, s2t_codec=s2t_codec,
-                s2t_pad=s2t_pad, s2t_mult=draw(st.sampled_from([1, 1, 2])), s2t_kind=draw(st.sampled_from(["rand", "text"])))
+                empties=empties, short_reads=short_reads, s2t_pad=s2t_pad, s2t_mult=draw(st.sampled_from([1, 1, 2])), s2t_kind=draw(st.sampled_from(["rand", "text"])))
 
 
 def feed(cmd, data, chunk, timeout=40, env=None):
@@ -214,6 +218,23 @@ def check_case(case, opts):
             parts.append(plain[prev:c])
             prev = c
         parts = [p for p in parts if p] or [b""]
+        if case.get("empties"):
+            # split further at 512 byte record boundaries and put an empty member there
+            at = sorted(set((int(f * len(plain)) // 512) * 512 for f in case["empties"]))
+            newparts, pos = [], 0
+            for p_ in parts:
+                lo, hi = pos, pos + len(p_)
+                inner = [a - lo for a in at if lo <= a < hi]
+                prev_ = 0
+                for a in inner:
+                    if a > prev_:
+                        newparts.append(p_[prev_:a])
+                    newparts.append(b"")
+                    prev_ = a
+                newparts.append(p_[prev_:])
+                pos = hi
+            parts = newparts
+            classes.append("empty_members")
         comp = b"".join(compress(codec, p, case["level"]) for p in parts)
         if len(parts) > 1:
             classes.append("multi_member")
@@ -226,7 +247,11 @@ def check_case(case, opts):
         if len(plain) >= 262144:
             classes.append("crosses_256k")
         out = os.path.join(sc, "c.sqfs")
-        r = feed([t2s] + c04.t2s_cmd(o, out), wire, case["chunk"])
+        senv = None
+        if case.get("short_reads") and opts.get("io_shim"):
+            senv = dict(VERIF_IO_MODE="short", VERIF_IO_SEED=str(case["short_reads"]), LD_PRELOAD=opts["io_shim"])
+            classes.append("short_reads")
+        r = feed([t2s] + c04.t2s_cmd(o, out), wire, case["chunk"], env=senv)
         if r.timeout:
             raise Violation("tar2sqfs hangs on %s input (%s trailing, %d members)" % (codec, tr, len(parts)), None, sig="hang-" + ("trailing" if tr != "none" else "valid"))
         if r.sanitizer():
@@ -372,11 +397,12 @@ def main(tier, seed, scale=1.0):
     vbuild.build("asan")
     n = int((4000 if tier == "quick" else 60000) * scale)
     res = Result(PROP)
-    vcommon.run_corpus(PROP, check_case, {"prop": PROP}, res)
+    opts = {"prop": PROP, "io_shim": vbuild.build_shim("io_shim")}
+    vcommon.run_corpus(PROP, check_case, opts, res)
     import multiprocessing as mp
     xp = mp.get_context("fork").Pool(4)
     xr = xp.map_async(exhaustive_truncation, [(c, seed) for c in CODECS], chunksize=1)
-    for d in vcommon.run_shards("c15", "check_case", "strat", n, seed, tier, {"prop": PROP}, shards=12):
+    for d in vcommon.run_shards("c15", "check_case", "strat", n, seed, tier, opts, shards=12):
         res.merge_shard(d)
     for codec, cnt, total, bad, cj in xr.get():
         res.evaluations += cnt
@@ -405,4 +431,4 @@ def replay(path):
         for cut, what in bad[:1]:
             res.violations.append(("%s stream truncated at byte %d: %s" % (codec, cut, what), path))
         return res
-    return vcommon.replay_case(PROP, check_case, path)
+    return vcommon.replay_case(PROP, check_case, path, {"prop": PROP, "io_shim": vbuild.build_shim("io_shim")})
